@@ -6,7 +6,7 @@ from loadlib import *
 ID = "C04"
 GEN = ["Candidates"]
 THEOREMS = ["C04_candidate_tables", "C04_use_names_documented", "C04_import_names_documented", "C04_code_shapes",
-            "C04_first_candidate", "C04_none_iff", "C04_direct", "C04_load_paths_in_order", "C04_fallback_unchanged",
+            "C04_first_candidate", "C04_none_iff", "C04_direct", "C04_load_paths_in_order", "C04_fallback_unchanged", "C04_spelling_irrelevant",
             "C04_root_allowed", "C04_root_none_iff", "C04_subdir_allowed", "C04_css_fallback",
             "C04_refuted_subdir_loadpath", "C04_statement_refuted"]
 COQ_HEADER = ("From Coq Require Import String List ZArith NArith.\nFrom RV Require Import Gen.Candidates Model.Load Model.LoadRun Run.C04.\n"
